@@ -725,7 +725,7 @@ def run():
                       extra={'direct_oracles_evaluated': n_or, 'exact_cases': len(cases), 'real_objects': len(ocases)},
                       uncovered=['convergence order of the scheme (asymptotic statement)',
                                  'floating-point rounding (only bounded a posteriori on the sampled runs)',
-                                 'the theta-spline interpolates the data (C08); used as a hypothesis of c10_integer_shift_exact / c10_preserves_constants',
+                                 'non-singularity of the collocation matrix (Schoenberg-Whitney) stays C08\'s per-instance certificate ip_inverse_ok in c10_interp_then_step_constants; the interpolation itself is now composed (c10_interp_then_step_constants, c10_interp_then_integer_shift)',
                                  'grid-level loops FluxSurfaceAdvection.gridStep (C05)',
                                  'stencil sizes other than 6 for lagrange_sum_one (zDegree is always 5 in the code base; on-node indicator is proved for any size)'])
 
